@@ -13,8 +13,8 @@ LEVEL_TEXT = ("TLC explores OptParse.tla - the ideal reading of a command line a
               "other pass untouched, non-option words untouched in order, strictly advancing cursor, compaction = filter). Every "
               "behaviour TLC generates (expected targets, argv, bad count, flags per pass) is then executed on spifopt_parse in an "
               "ASan build of the current tree (fresh exact-size heap argv, guarded targets, CPU watchdog) and compared.")
-LEVEL_NOTE = ("Bounded scope: all argv of <= 3 words over 16 tokens and <= 2 words over the full 34-token alphabet (quick); <= 4 words "
-              "over 12 tokens and <= 3 words over all 34 (thorough); 2 option tables x 4 settings; beyond the bound only seeded "
+LEVEL_NOTE = ("Bounded scope: all argv of <= 3 words over 17 tokens and <= 2 words over the full 35-token alphabet (quick); <= 4 words "
+              "over 12 tokens and <= 3 words over all 35 (thorough); 2 option tables x 4 settings; beyond the bound only seeded "
               "samples of 4-8 words (TLC computes their expectation too). Points DESIGN.md 8a marks E are accepted either way "
               "(boolean word after a short boolean, lone '-' / bare '--', whether unknown-option words stay in argv, exact count "
               "for a missing value); spellings marked X end the comparison and are run for termination and memory safety only. "
